@@ -9,29 +9,39 @@ Open Scope Z_scope.
 
 Definition wcfg (para : bool) (minfee persender : Z) : config :=
   mkCfg true para true true true minfee 1000000000 false 10000000 10000 persender 8 true
-        10 1699999980 1700000000 [(4%N, 0); (5%N, 3)].
+        10 1699999980 1700000000 [(4%N, 0); (5%N, 3)] true.
+
+(** a transaction with a main-chain execer whose only possible blacklist hit is the recipient;
+    [wg]: the same as a group wrapper whose Header carries transactions with the given Expire values *)
+Definition mkT (id sender : N) (hs so tv bl oc : bool) (e : Z) (he : bool) (fee sz : Z) (ck eth : bool)
+               (n : Z) (ex : bool) (sg : N) : txf :=
+  mkTx id sender hs so tv (if bl then 10%N else 0%N) oc e he fee sz ck eth n ex sg 0 None.
+Definition wg (t : txf) (vs : list Z) : txf :=
+  mkTx (t_id t) (t_sender t) (t_has_sig t) (t_sig_ok t) (t_to_valid t) (t_bl t) (t_on_chain t) (t_expire t)
+       (t_hdr_empty t) (t_fee t) (t_size t) (t_chain_ok t) (t_eth t) (t_nonce t) (t_exec_ok t) (t_sigid t)
+       (t_para t) (Some vs).
 
 Lemma wcfg_ok : forall para m ps, 0 <= m -> cfg_ok (wcfg para m ps).
 Proof. intros. split; simpl; lia. Qed.
 
 (** a well-formed transaction of [sender] *)
 Definition wtx (id sender : N) (fee : Z) : txf :=
-  mkTx id sender true true true false false 0 false fee 130 true false 7 true (100 + id).
+  mkT id sender true true true false false 0 false fee 130 true false 7 true (100 + id).
 
 (** 1. forwarded on a parachain node: expired (Expire = 10 <= height+1), recipient blacklisted, fee 0 *)
 Definition w_fwd : sub :=
-  mkSub (mkTx 1 0 true true true true false 10 false 0 125 true false 2 true 101) Plain true.
+  mkSub (mkT 1 0 true true true true false 10 false 0 125 true false 2 true 101) Plain true.
 
 (** 2. group of two of sender 0; the wrapper carries sender 1's public key
     (finding 2, fixed: the pool now refuses it, see [wrapper_witness_rejected]) *)
-Definition w_head := mkTx 1 0 true true true false false 0 false 200000 140 true false 3 true 101.
-Definition w_mem (e : Z) (he : bool) := mkTx 2 0 true true true false false e he 0 140 true false 4 true 102.
+Definition w_head := mkT 1 0 true true true false false 0 false 200000 140 true false 3 true 101.
+Definition w_mem (e : Z) (he : bool) := mkT 2 0 true true true false false e he 0 140 true false 4 true 102.
 Definition w_wrap : sub :=
-  mkSub (mkTx 1 1 true false true false false 0 false 200000 420 true false 3 true 199)
+  mkSub (wg (mkT 1 1 true false true false false 0 false 200000 420 true false 3 true 199) [0; 0])
         (Group [w_head; w_mem 0 false] true) false.
 (** the same group as Transactions.Tx() builds it *)
 Definition w_wrap_honest : sub :=
-  mkSub (mkTx 1 0 true true true false false 0 false 200000 420 true false 3 true 101)
+  mkSub (wg (mkT 1 0 true true true false false 0 false 200000 420 true false 3 true 101) [0; 0])
         (Group [w_head; w_mem 0 false] true) false.
 
 (** 3. negative fee under a zero minimum rate *)
@@ -39,8 +49,8 @@ Definition w_neg : sub := mkSub (wtx 1 0 (-1000000)) Plain false.
 
 (** 4. group whose header hash parses as an empty group; member 2 expired at height 6 *)
 Definition w_hdr : sub :=
-  mkSub (mkTx 1 0 true true true false false 0 false 200000 420 true false 3 true 101)
-        (Group [mkTx 1 0 true true true false false 0 true 200000 140 true false 3 true 101; w_mem 6 true] true) false.
+  mkSub (wg (mkT 1 0 true true true false false 0 false 200000 420 true false 3 true 101) [0; 6])
+        (Group [mkT 1 0 true true true false false 0 true 200000 140 true false 3 true 101; w_mem 6 true] true) false.
 
 Lemma refuted_forward : ~ accepted_sound (fun c s => g_fee c s && g_hdr s).
 Proof.
@@ -86,10 +96,10 @@ Qed.
 
 (** non-vacuity: a group of three enters a non-empty pool with all guards satisfied *)
 Definition ex_group : sub :=
-  mkSub (mkTx 10 0 true true true false false 0 false 300000 600 true false 3 true 110)
-        (Group [mkTx 10 0 true true true false false 0 false 300000 140 true false 3 true 110;
-                mkTx 11 1 true true true false false 12 false 0 140 true false 4 true 111;
-                mkTx 12 2 true true true false false 1700000060 false 0 140 true false 5 true 112] true) false.
+  mkSub (wg (mkT 10 0 true true true false false 0 false 300000 600 true false 3 true 110) [0; 12; 1700000060])
+        (Group [mkT 10 0 true true true false false 0 false 300000 140 true false 3 true 110;
+                mkT 11 1 true true true false false 12 false 0 140 true false 4 true 111;
+                mkT 12 2 true true true false false 1700000060 false 0 140 true false 5 true 112] true) false.
 
 Lemma guards_satisfiable :
   exists c p s p', cfg_ok c /\ facts_consistent s = true /\ p <> [] /\ pipeline c p (STx s) = (R_OK, p')
@@ -101,11 +111,11 @@ Qed.
 
 (** the same group is refused as soon as one member violates one clause *)
 Lemma member_violation_rejected :
-  let bad (t : txf) := mkSub (s_outer ex_group) (Group [mkTx 10 0 true true true false false 0 false 300000 140 true false 3 true 110; t; w_mem 0 false] true) false in
+  let bad (t : txf) := mkSub (s_outer ex_group) (Group [mkT 10 0 true true true false false 0 false 300000 140 true false 3 true 110; t; w_mem 0 false] true) false in
   let c := wcfg false 100000 3 in
-  fst (pipeline c [] (STx (bad (mkTx 11 1 true false true false false 0 false 0 140 true false 4 true 111)))) = R_SIGN
-  /\ fst (pipeline c [] (STx (bad (mkTx 11 1 true true false false false 0 false 0 140 true false 4 true 111)))) = R_ADDR
-  /\ fst (pipeline c [] (STx (bad (mkTx 11 1 true true true true false 0 false 0 140 true false 4 true 111)))) = R_BLOCKED
-  /\ fst (pipeline c [] (STx (bad (mkTx 11 1 true true true false true 0 false 0 140 true false 4 true 111)))) = R_DUP
-  /\ fst (pipeline c [] (STx (bad (mkTx 11 1 true true true false false 11 false 0 140 true false 4 true 111)))) = R_EXPIRED.
+  fst (pipeline c [] (STx (bad (mkT 11 1 true false true false false 0 false 0 140 true false 4 true 111)))) = R_SIGN
+  /\ fst (pipeline c [] (STx (bad (mkT 11 1 true true false false false 0 false 0 140 true false 4 true 111)))) = R_ADDR
+  /\ fst (pipeline c [] (STx (bad (mkT 11 1 true true true true false 0 false 0 140 true false 4 true 111)))) = R_BL_TO
+  /\ fst (pipeline c [] (STx (bad (mkT 11 1 true true true false true 0 false 0 140 true false 4 true 111)))) = R_DUP
+  /\ fst (pipeline c [] (STx (bad (mkT 11 1 true true true false false 11 false 0 140 true false 4 true 111)))) = R_EXPIRED.
 Proof. repeat split; reflexivity. Qed.
